@@ -38,9 +38,11 @@ def feasible(spec, limits):
 class Check(PropertyCheck):
     id = "C09"
     module = "Props.C09"
-    extra_modules = ["Model.JobTrace"]
+    extra_modules = ["Model.JobTrace", "Props.C09Tree"]
     theorems = ["C09_waiting_has_waker_partial", "C09_holder_is_running", "C09_no_stuck_waiting",
-                "C09_refuted_without_recheck", "C09_witness_fixed"]
+                "C09_refuted_without_recheck", "C09_witness_fixed",
+                "C09_tree_steps_bounded", "C09_tree_step_decreases", "C09_tree_quiescent_settled", "C09_tree_nonvacuous"]
+    theorem_modules = ["Props.C09Tree"]      # closed-program termination on the tree machine
     variant = None
     assumptions = [
         "every task function terminates and the workflow is finite (premise of the property; the open model leaves the creation of jobs to the schedule)",
